@@ -100,18 +100,25 @@ def rendersCon (o : Op) (t : Text) : Bool :=
   | .ok hdr => (o.info.con ++ (extractRaw (sectionsOf o.c o.replace t).2.1).con).all ((extractRaw hdr).con.contains ·)
   | .error _ => true
 
+/-- the `.license` pseudo style in replacing mode treats everything from the first position whose rest holds REUSE information
+    as the block, and the *whole* text when there is none; nothing is lost by that when every expression of the text parses
+    (a text without readable information then holds no information at all).  The pseudo style has no first-line markers. -/
+def styleOK (o : Op) (t : Text) : Bool :=
+  !o.replace || !(o.c.style.name == "EmptyCommentStyle") ||
+    (o.c.style.shebangs.isEmpty && (extractRaw t).lic.all o.c.parses)
+
 /-- the hypotheses under which one successful step is covered by `C09_step`: "\n" is the only line boundary of the old text,
     no `--merge-copyrights`, not the `.license` pseudo style in replacing mode, no `REUSE-IgnoreStart` in the old and in the new
     text, and the seam.  Nothing is assumed about where in the text the information lives. -/
 def stepGoodFull (norm : Text → Text) (o : Op) (t : Text) : Prop :=
   ∀ t', annotateText o.c o.replace o.skipExisting o.info t = .written t' →
     o.c.normLic = norm ∧ (∀ x, norm (norm x) = norm x) ∧ o.c.merge = false ∧
-    (o.replace = true → (o.c.style.name == "EmptyCommentStyle") = false) ∧
+    styleOK o t = true ∧
     NoExoticBreaks t ∧ noIgnoreStart t = true ∧ noIgnoreStart t' = true ∧ seamOK o t = true
 
 /-- the decidable part of `stepGoodFull`, as the driver evaluates it (op `c09full`) -/
 def stepGoodFullB (o : Op) (t t' : Text) : Bool :=
-  !o.c.merge && (!o.replace || !(o.c.style.name == "EmptyCommentStyle")) &&
+  !o.c.merge && styleOK o t &&
   decide (NoExoticBreaks t) && noIgnoreStart t && noIgnoreStart t' && seamOK o t
 
 /-- every step of the history is good at the text it is applied to -/
